@@ -343,7 +343,23 @@ theorem C05_abduce_projection_dist (h : InvHyp cb cu ax ay) (hw : WF wb wu ay) :
     simp only [← Finset.mul_sum, sum_post h, mul_one]
     exact sum_proj hw
 
-/-! ### 7. non-vacuity -/
+/-! ### 7. the hypothesis `hay` cannot be dropped -/
+
+/-- finding: with a strictly positive base rate on `Y` that lies inside the guard band (`0 < ay y₀ ≤ ε`,
+    here `ay y₀ = 2⁻²⁴` at `f32`), well-formed conditionals and `ax = (1/2, 1/2)`, the model returns an
+    inverted opinion with a belief mass below -1/10: `max_uncertainty` skips `y₀` (`u_yx[x₀] = 1`) while
+    `max_u_yx[x₀] = P(y₀|x₀)/ay y₀ = 1/2` does not, so `weighted_u_yx[x₀] = 2·weights[x₀]`,
+    `wprop ≈ 1.8 > 1`, `φ y₁ ≈ 1.6 > 1` and `u > maxUxy y₁`.  (Data: `SLV.C05.Witness`.) -/
+theorem C05_wf_fails_below_band :
+    ∃ (cb : Fin 2 → Fin 2 → ℚ) (cu ax ay : Fin 2 → ℚ), InvHyp cb cu ax ay ∧
+      ∃ q : ℚ, q < -(1 / 10) ∧
+        ((inverse (condTab cb cu Fmt.f32) (liftT ax) (liftT ay))[(1 : Fin 2)]).b[(1 : Fin 2)]
+          = XQ.fin q := by
+  refine ⟨Witness.cb, Witness.cu, Witness.ax, Witness.ay, Witness.hyp,
+    bI Fmt.f32 Witness.cb Witness.cu Witness.ax Witness.ay 1 1, Witness.bI11_neg, ?_⟩
+  rw [C05_refines Witness.hyp, condTab_get, liftT_getElem]
+
+/-! ### 8. non-vacuity -/
 
 /-- 2×3: two conditionals with different uncertainty; outcome `y₀` is equally likely (1/2) under both
     values of `X`, the other two outcomes are not -/
